@@ -2,7 +2,7 @@
 
     Only the property theorems; each is closed from lemmas of Proofs/C03_*.v and followed by Print Assumptions.
     Models: Model/GitChanges.v (internal/git/changes.go) and Model/GitBranch.v (internal/discovery/git_branch.go),
-    both as of the current tree (after fix commits a826206, 4412e3a, 4dd7734, d9e7954). *)
+    both as of the current tree (after fix commits a826206, 4412e3a, 4dd7734, d9e7954, e81cbba). *)
 From Coq Require Import List String Ascii ZArith NArith Bool Lia Permutation.
 From PintV Require Import Common.Bytes Gen.Tables Model.GitBranch Proofs.C03_match Proofs.C03_state Proofs.C03_sort Proofs.C03_added Proofs.C03_merge Proofs.C03_final Proofs.C03_skip.
 From PintV Require Model.GitChanges Proofs.C03_changes Proofs.C03_unquote Proofs.C03_faithful Proofs.C03_history Proofs.C03_tables Gen.C03.
@@ -53,21 +53,37 @@ Theorem C03_rename_onto_deleted_path_tracked :
 Proof. exact PC.witness_now_tracked. Qed.
 Print Assumptions C03_rename_onto_deleted_path_tracked.
 
-(** KNOWN FINDING C03-copy-entry-consumes-source-record (open).  git prints copy entries (`C<score> src dst`) only when copy
-    detection is switched on (`diff.renames = copies` in the user's or repository's configuration; pint's own `git log` call
-    does not ask for it), and then only for sources modified in the same commit.  The fold treats a copy like a rename: it
-    continues from -- and DROPS -- the record of the source.  Faithful model, three entries: `M a` (c1); `M a`, `C a -> b`
-    (c2): the list holds a single record (b, origin a) and none for a, so the rules of a that c1 and c2 changed are never
-    compared and stay Noop.  Replayed on the binary (notes/C03.md, corpus/C03/copy_entry_source_modified.json); this is why
-    [log_faithful] admits the statuses A, D, M, T, R only. *)
-Theorem C03_copy_entry_consumes_source_record :
+(** Copy entries (`C<score> src dst`, printed by git only when copy detection is configured -- `diff.renames = copies` -- and
+    only for sources modified in the same commit).  Until fix e81cbba the fold treated a copy like a rename and dropped the
+    record of the source (known finding C03-copy-entry-consumes-source-record, now fixed).  Regression, on the witness of
+    that finding -- `M a` (c1); `M a`, `C a -> b` (c2): the source keeps its record with both of its commits, the copy gets
+    a record of its own that starts at the copying commit with the source as its base.  In the specification ([PC.trace]) a
+    copy entry is a chain of its own and never continues, pops or shadows anything at its source; the refinement theorem
+    above covers it for all logs. *)
+Theorem C03_copy_entry_keeps_source_record :
   let log := [PC.mk "c1" "M" "a" "a"; PC.mk "c2" "M" "a" "a"; PC.mk "c2" "C" "a" "b"] in
   let changes := GC.fold_log (fun _ _ => GC.File) (fun _ => true) (fun _ => false) log in
   map (fun c => (GC.ch_status c, GC.ch_before c, GC.ch_after c, GC.ch_commits c)) changes =
-    [(GC.st "C", "a", "b", ["c1"; "c2"; "c2"])] /\
-  GC.get_change_by_path changes "a" = None.
+    [(GC.st "M", "a", "a", ["c1"; "c2"]); (GC.st "C", "a", "b", ["c2"])] /\
+  option_map GC.ch_commits (GC.get_change_by_path changes "a") = Some ["c1"; "c2"].
 Proof. vm_compute. split; reflexivity. Qed.
-Print Assumptions C03_copy_entry_consumes_source_record.
+Print Assumptions C03_copy_entry_keeps_source_record.
+
+(** ... and for ALL logs a copy entry never changes what is recorded for its source path: every observation of the source
+    path is the same before and after the entry (unless the copy lands on the path itself). *)
+Theorem C03_copy_entry_leaves_source_alone :
+  forall type_at allowed is_dir (C : list GC.change) (e : GC.entry) k,
+    GC.is_copy e = true -> GC.le_dst e <> GC.le_src e ->
+    PC.nth_by_path (GC.step type_at allowed is_dir C e) (GC.le_src e) k = PC.nth_by_path C (GC.le_src e) k.
+Proof.
+  intros type_at allowed is_dir C e k Hc Hne. unfold GC.step. rewrite Hc.
+  destruct (negb (allowed (GC.le_dst e))); [reflexivity|]. destruct (is_dir (GC.le_dst e)); [reflexivity|].
+  unfold PC.nth_by_path. rewrite rev_app_distr. simpl rev. simpl app. cbn [filter]. unfold GC.has_after at 1. cbn [GC.ch_after].
+  assert (E : String.eqb (GC.le_dst e) (GC.le_src e) = false) by (apply String.eqb_neq; exact Hne).
+  rewrite E. reflexivity.
+Qed.
+Print Assumptions C03_copy_entry_leaves_source_alone.
+
 
 (** Under the named hypothesis [PF.log_faithful] (the log is ordered by commit, each entry relates the snapshots before and
     after its commit as `git log --name-status` documents -- A: absent -> present, D: present -> absent, M/T: present in
